@@ -11,7 +11,8 @@ from .. import formula as F
 
 BOUNDS = {
     'quick': 'all trees with <= 3 binary operators over + - * / (all shapes x operator assignments), unary minus on '
-             '<= 2 nodes, 8 leaf-kind rotations (all 6^k leaf-kind assignments for <= 2 operators); zero-divisor '
+             '<= 2 nodes (3 operators, 4 leaf-kind rotations) or <= 1 node (<= 2 operators, all 6^k leaf-kind '
+             'assignments); zero-divisor '
              'placements for <= 2 operators; comparison trees (one comparison per region, 6 operators, comparison as '
              'arithmetic leaf, comparison of comparisons); & chains of 2..4 operands alone and against a comparison; '
              'left/right nested chains to depth 30',
@@ -120,9 +121,9 @@ class Arith(Sub):
                 elif n <= 2:
                     for op0 in F.ARITH:
                         for k0 in range(len(KINDS6)):
-                            yield ['blk', n, si, 'all', op0, k0]
+                            yield ['blk', n, si, 'all', op0, k0, 1 if tier == 'quick' else 2]
                 else:
-                    rots = range(8) if n <= 3 else (range(3) if n == 4 else range(1))
+                    rots = (range(4) if tier == 'quick' else range(8)) if n <= 3 else (range(3) if n == 4 else range(1))
                     for rot in rots:
                         if n >= 4:
                             for op0 in F.ARITH:
@@ -140,6 +141,8 @@ class Arith(Sub):
         nn = F.count_nodes(sh)
         out = []
         maxu = 2 if n <= 4 else 1
+        if len(case) > 6:
+            maxu = case[6]
         if rot == 'all':
             kindsets = [ks for ks in itertools.product(KINDS6, repeat=n + 1) if k0 is None or ks[0] == KINDS6[k0]]
         else:
